@@ -195,9 +195,10 @@ def solve_sat(
 
     def unassign_to(level):
         nonlocal prop_head
-        while len(trail_lim) > level:
-            trail_lim.pop()
-        target = trail_lim[-1] if trail_lim else 0
+        if len(trail_lim) <= level:
+            return
+        target = trail_lim[level]  # trail length when decision level `level + 1` started
+        del trail_lim[level:]
         while len(trail) > target:
             var = trail.pop()
             phase[var] = vals[var] == 1
@@ -403,9 +404,12 @@ def solve_sat(
             add_watch(clause[0], i)
             add_watch(clause[1], i)
 
-    for var, val in find_pure_literals():
-        if vals[var] == UNDEF:
-            assign(var, val, -1)
+    # Pure literals only preserve satisfiability: not usable when enumerating models or for assumed variables
+    if solution_limit == 1:
+        assumed = {lit_var(lit) for lit in assumptions}
+        for var, val in find_pure_literals():
+            if vals[var] == UNDEF and var not in assumed:
+                assign(var, val, -1)
 
     for lit, idx in unit_clauses:
         var = lit_var(lit)
@@ -500,20 +504,26 @@ def solve_sat(
                 return Result(sol, len(sol), decisions, propagations, solutions=tuple(all_solutions))
 
             blocking = [(-v if vals[v] == 1 else v) for v in range(1, n_vars + 1) if vals[v] != UNDEF]
+            # Deepest levels first: after backtracking to level 0 these are the free literals, so they get the watches
+            blocking.sort(key=lambda blit: -levels[lit_var(blit)])
+            if not blocking or levels[lit_var(blocking[0])] == 0:
+                # Everything is fixed at level 0, there is no other model
+                return Result(sol, len(sol), decisions, propagations, solutions=tuple(all_solutions))
             clause_idx = len(clauses) + len(learned)
             learned.append(blocking)
             lbd_scores.append(n_vars)
             if _VERIF and _verif_sink is not None:
                 _verif_sink(("learned", list(blocking), True))
 
-            if len(blocking) >= 2:
+            unit_at_root = len(blocking) == 1 or levels[lit_var(blocking[1])] == 0
+            if not unit_at_root:
                 add_watch(blocking[0], clause_idx)
                 add_watch(blocking[1], clause_idx)
-            elif len(blocking) == 1:
-                add_watch(blocking[0], clause_idx)
 
             unassign_to(0)
             dec_level = 0
+            if unit_at_root:
+                assign(lit_var(blocking[0]), blocking[0] > 0, clause_idx)
             conflict = propagate()
             continue
 
